@@ -192,56 +192,88 @@ func unstartedGuard(p *pkg, fd *ast.FuncDecl) (bool, error) {
 }
 
 
-// stickyFact: does (*ShadowStreamConn).read refuse to run after an earlier failure and record the
-// first error other than io.EOF? Recognised shapes: no mention of readErr at all (false), or the guard
-// `if c.readErr != nil { return 0, c.readErr }` followed by `n, err = c.readChunk(b)` and
-// `if err != nil && err != io.EOF { c.readErr = err }` (true); the client's initRead and
-// readFirstPayloadChunk must then record their failures too. Anything else: unrecognised.
-func stickyFact(p *pkg) (bool, error) {
+// stickyFact: (sticky, boundaryRetryable). Three recognised shapes of (*ShadowStreamConn).read and
+// the client's initRead / readFirstPayloadChunk:
+//   - no mention of readErr at all: (false, true);
+//   - "F22": guard, `n, err = c.readChunk(b)`, `if err != nil && err != io.EOF { c.readErr = err }`;
+//     initRead records the failures after the read cipher is assigned: (true, false) — every failure
+//     other than io.EOF is permanent, also one that consumed nothing;
+//   - "F22b": guard; the first io.ReadFull records only when nr > 0; every other failure site goes
+//     through failRead, except the io.EOF passthrough of the second io.ReadFull; initRead starts with the
+//     guard, records a failed first read only when n > 0, and records every later failure: (true, true).
+// Anything else: unrecognised.
+func stickyFact(p *pkg) (bool, bool, error) {
 	rd, err := p.Func("*ShadowStreamConn", "read")
 	if err != nil {
-		return false, err
+		return false, false, err
 	}
 	src := p.Src(rd.Body)
 	ir, err := p.Func("*ShadowStreamClientConn", "initRead")
 	if err != nil {
-		return false, err
+		return false, false, err
 	}
 	fp, err := p.Func("*ShadowStreamClientConn", "readFirstPayloadChunk")
 	if err != nil {
-		return false, err
+		return false, false, err
 	}
 	isrc, fsrc := p.Src(ir.Body), p.Src(fp.Body)
 	if !strings.Contains(src, "readErr") {
 		if strings.Contains(isrc, "readErr") || strings.Contains(fsrc, "readErr") {
-			return false, fmt.Errorf("readErr used by the client paths but not by read")
+			return false, false, fmt.Errorf("readErr used by the client paths but not by read")
 		}
-		return false, nil
+		return false, true, nil
 	}
-	guard, call, rec := -1, -1, -1
-	for i, st := range rd.Body.List {
-		t := p.Src(st)
-		switch {
-		case t == "if c.readErr != nil { return 0, c.readErr }":
-			guard = i
-		case t == "n, err = c.readChunk(b)":
-			call = i
-		case t == "if err != nil && err != io.EOF { c.readErr = err }":
-			rec = i
+	has := func(fd *ast.FuncDecl, want string) int {
+		for i, st := range fd.Body.List {
+			if p.Src(st) == want {
+				return i
+			}
 		}
+		return -1
 	}
-	if guard < 0 || call < 0 || rec < 0 || !(guard < call && call < rec) {
-		return false, fmt.Errorf("read: unrecognised use of readErr: %s", src)
+	guard := has(rd, "if c.readErr != nil { return 0, c.readErr }")
+	if guard < 0 {
+		return false, false, fmt.Errorf("read: readErr is used but the guard is missing: %s", src)
 	}
-	if strings.Count(isrc, "c.ShadowStreamConn.readErr = err") != 2 || strings.Count(fsrc, "c.ShadowStreamConn.readErr = err") != 2 {
-		return false, fmt.Errorf("read is sticky but initRead / readFirstPayloadChunk do not record their failures in the recognised way")
+	if strings.Count(fsrc, "c.ShadowStreamConn.readErr = err") != 2 {
+		return false, false, fmt.Errorf("readFirstPayloadChunk does not record its failures in the recognised way")
 	}
-	// every failure of initRead after the read cipher is assigned must be recorded: the two error returns that follow the assignment
 	after := isrc[strings.Index(isrc, "c.ShadowStreamConn.readCipher = shadowStreamCipher"):]
 	if strings.Count(after, "return 0, err") != strings.Count(after, "c.ShadowStreamConn.readErr = err return 0, err") {
-		return false, fmt.Errorf("initRead: an error return after the read cipher is assigned does not record the error")
+		return false, false, fmt.Errorf("initRead: an error return after the read cipher is assigned does not record the error")
 	}
-	return true, nil
+	// F22
+	call, rec := has(rd, "n, err = c.readChunk(b)"), has(rd, "if err != nil && err != io.EOF { c.readErr = err }")
+	if call >= 0 || rec >= 0 {
+		if !(guard < call && call < rec) || strings.Count(isrc, "c.ShadowStreamConn.readErr = err") != 2 {
+			return false, false, fmt.Errorf("read: unrecognised use of readErr: %s", src)
+		}
+		return true, false, nil
+	}
+	// F22b
+	first := has(rd, "if nr, err := io.ReadFull(c.Conn, ciphertext); err != nil { if nr > 0 { c.readErr = err } return 0, err }")
+	second := has(rd, "if _, err = io.ReadFull(c.Conn, ciphertext); err != nil { if err == io.EOF { return 0, err } return c.failRead(err) }")
+	zero := has(rd, "if length == 0 { return c.failRead(ErrZeroLengthChunk) }")
+	if !(guard < first && first < zero && zero < second) || strings.Count(src, "if _, err = c.readCipher.DecryptInPlace(ciphertext); err != nil { return c.failRead(err) }") != 2 {
+		return false, false, fmt.Errorf("read: unrecognised use of readErr: %s", src)
+	}
+	// no other way out of read with an error
+	if strings.Count(src, "return 0, err") != 2 || strings.Count(src, "return ") != 2+1+4+1 {
+		return false, false, fmt.Errorf("read: unrecognised return statements: %s", src)
+	}
+	fr, err := p.Func("*ShadowStreamConn", "failRead")
+	if err != nil {
+		return false, false, err
+	}
+	if p.Src(fr.Body) != "{ c.readErr = err return 0, err }" {
+		return false, false, fmt.Errorf("failRead: unrecognised body: %s", p.Src(fr.Body))
+	}
+	if has(ir, "if c.ShadowStreamConn.readErr != nil { return 0, c.ShadowStreamConn.readErr }") != 0 ||
+		has(ir, "if n, err := c.readOnceOrFull(c.ShadowStreamConn.Conn, hb); err != nil { if n > 0 { c.ShadowStreamConn.readErr = err } return 0, err }") < 0 ||
+		strings.Count(isrc, "c.ShadowStreamConn.readErr = err") != 4 {
+		return false, false, fmt.Errorf("initRead: unrecognised use of readErr: %s", isrc)
+	}
+	return true, true, nil
 }
 
 // decryptFact: do the three Decrypt helpers advance the nonce only after a successful open?
@@ -374,11 +406,12 @@ func main() {
 			return err
 		}
 		l.BoolDef("tunnelGuardsUnstartedServer", f3, "ss2022.(*ShadowStreamClientConn).writeToServerConn takes the generic path while the server conn has no write cipher yet")
-		f4, err := stickyFact(p)
+		f4, f4b, err := stickyFact(p)
 		if err != nil {
 			return err
 		}
-		l.BoolDef("readErrorsSticky", f4, "ss2022.(*ShadowStreamConn).read fails again after an earlier failure other than io.EOF (readErr); the client's initRead / readFirstPayloadChunk record their failures too")
+		l.BoolDef("readErrorsSticky", f4, "ss2022.(*ShadowStreamConn).read refuses to run after a recorded failure (readErr); the client's initRead / readFirstPayloadChunk record their failures too")
+		l.BoolDef("boundaryTimeoutRetryable", f4b, "a failure of read's first io.ReadFull (resp. of initRead's first read) that consumed nothing is not recorded: the call can be retried")
 		f5, err := decryptFact(p)
 		if err != nil {
 			return err
